@@ -90,36 +90,52 @@ def sc_is_foreign(sc):
     return sc["op"].startswith("ld.")
 
 
-def expire_race_cfg(readers, nreads, ttl, maxclock, nsweeps, sized, resurrect):
+def expire_race_cfg(readers, nreads, ttl, maxclock, nsweeps, sized, resurrect, writer="", reread=False):
     return ("SPECIFICATION Spec\nCONSTANTS\n Readers = {%s}\n NReads = %d\n TTL = %d\n MaxClock = %d\n NSweeps = %d\n Sized = %s\n Resurrect = %s\n"
-            "INVARIANTS Truthful Once Tracked Swept\nPROPERTIES Terminates\n" %
-            (", ".join(map(str, range(1, readers + 1))), nreads, ttl, maxclock, nsweeps, "TRUE" if sized else "FALSE", "TRUE" if resurrect else "FALSE"))
+            " Writers = {%s}\n WKind = \"%s\"\n ReRead = %s\n"
+            "INVARIANTS Truthful Once Tracked Swept SameCause\nPROPERTIES Terminates\n" %
+            (", ".join(map(str, range(1, readers + 1))), nreads, ttl, maxclock, nsweeps, "TRUE" if sized else "FALSE", "TRUE" if resurrect else "FALSE",
+             "101" if writer else "", writer or "set", "TRUE" if reread else "FALSE"))
 
 
 def expire_race_models(work, tier):
-    """ExpireRace.tla: the repaired protocol (Resurrect = TRUE) must satisfy Truthful / Once / Tracked / Swept / Terminates; the
-    protocol as found (F19, Resurrect = FALSE) must violate Truthful - if TLC stops finding that counterexample the model no longer
-    explains the finding and the check reports itself broken.  Returns (mc records, broken)."""
+    """ExpireRace.tla: the repaired protocol (Resurrect = TRUE, ReRead = FALSE) must satisfy Truthful / Once / Tracked / Swept / SameCause /
+    Terminates; the protocol as found must violate: Resurrect = FALSE -> Truthful (F19); ReRead = TRUE with a Set -> SameCause (F22), with a
+    SetIfAbsent -> Tracked (F20).  If TLC stops finding one of these counterexamples the model no longer explains the finding and the check
+    reports itself broken.  Returns (mc records, broken)."""
     inst = [("r1n2", (1, 2, 3, 5, 2)), ("r2n1", (2, 1, 3, 5, 2))]
     if tier != "quick":
         inst += [("r1n3", (1, 3, 3, 6, 3)), ("r2n1c6", (2, 1, 4, 6, 2))]
-    mc, broken = [], []
+    jobs = []
     for tag, (rd, nr, ttl, mx, ns) in inst:
         for sized in (False, True):
-            for res in (True, False):
-                if not res and (tag != "r1n2"):
-                    continue
-                cfg = os.path.join(work, "er_%s_%d_%d.cfg" % (tag, sized, res))
-                with open(cfg, "w") as f:
-                    f.write(expire_race_cfg(rd, nr, ttl, mx, ns, sized, res))
-                r = vlib.run_tlc(work, "ExpireRace", cfg, workers=4, timeout=900, heap="4g")
-                name = "ExpireRace %s sized=%d resurrect=%d" % (tag, sized, res)
-                mc.append({"instance": name, "distinct": r["distinct"], "generated": r["generated"], "wall_s": round(r["wall"], 1),
-                           "expected": "holds" if res else "violates Truthful"})
-                if res and not vlib.tlc_ok(r):
-                    broken.append(name + ": " + r["out"][-1500:])
-                if not res and "Invariant Truthful is violated" not in r["out"]:
-                    broken.append(name + " (must violate Truthful, F19): " + r["out"][-800:])
+            jobs.append(("ExpireRace %s sized=%d" % (tag, sized), expire_race_cfg(rd, nr, ttl, mx, ns, sized, True), None))
+            if tag == "r1n2":
+                jobs.append(("ExpireRace %s sized=%d resurrect=0" % (tag, sized), expire_race_cfg(rd, nr, ttl, mx, ns, sized, False), "Truthful"))
+    for wk in ("set", "setifabsent"):
+        jobs.append(("ExpireRace writer=%s" % wk, expire_race_cfg(1, 1, 3, 5, 1, False, True, writer=wk), None))
+        jobs.append(("ExpireRace writer=%s reread=1" % wk, expire_race_cfg(1, 1, 3, 5, 1, False, True, writer=wk, reread=True),
+                     "SameCause" if wk == "set" else "Tracked"))
+    if tier != "quick":
+        for wk in ("set", "setifabsent"):
+            jobs.append(("ExpireRace writer=%s r2 sized" % wk, expire_race_cfg(2, 1, 3, 5, 2, True, True, writer=wk), None))
+    mc, broken = [], []
+
+    def one(i, txt):
+        cfg = os.path.join(work, "er_%d.cfg" % i)
+        with open(cfg, "w") as f:
+            f.write(txt)
+        return vlib.run_tlc(work, "ExpireRace", cfg, workers=4, timeout=900, heap="4g")
+    with cf.ThreadPoolExecutor(max_workers=4) as ex:
+        futs = [ex.submit(one, i, txt) for i, (_, txt, _) in enumerate(jobs)]
+    for (name, txt, must_violate), fu in zip(jobs, futs):
+        r = fu.result()
+        mc.append({"instance": name, "distinct": r["distinct"], "generated": r["generated"], "wall_s": round(r["wall"], 1),
+                   "expected": "holds" if not must_violate else "violates " + must_violate})
+        if not must_violate and not vlib.tlc_ok(r):
+            broken.append(name + ": " + r["out"][-1500:])
+        if must_violate and ("Invariant %s is violated" % must_violate) not in r["out"]:
+            broken.append(name + " (must violate %s): " % must_violate + r["out"][-800:])
     return mc, broken
 
 
